@@ -112,6 +112,11 @@ def run(c):
                     if k:
                         list_cov.setdefault(r["ctor"], set()).add(k)
             inp = {"where": r["src"], "pattern": r["pattern"], "gotypesalias": alias}
+            if r.get("refusable") and r.get("load_err") and not r.get("panic"):
+                # an ordering comparison with the constant on the left: refusing it is fine, accepting it with another meaning is not
+                c.count()
+                c.coverage["refused_constant_on_the_left"] = c.coverage.get("refused_constant_on_the_left", 0) + 1
+                continue
             if r.get("load_err") or r.get("panic"):
                 c.count()
                 c.fail("oracle", "a documented predicate %s" % ("is refused at load" if r.get("load_err") else "crashes the run"),
